@@ -103,6 +103,17 @@ func c09cid(b byte) cid.Cid {
 	return c
 }
 
+// the CID alphabet of the receiver histories: 1 and 2 differ in their digest; 3
+// has the digest of 1 but the dag-cbor codec, so it is a different CID
+func c09hcid(k byte) cid.Cid {
+	if k == 3 {
+		c, err := cid.Cast([]byte{0x01, 0x71, 0x00, 0x01, 1})
+		verif_Assume(err == nil)
+		return c
+	}
+	return c09cid(k)
+}
+
 // C09 (c)-(d), (f): bounded histories of direct announcements and un-cache
 // operations against the specification
 //
@@ -123,9 +134,9 @@ func VerifC09_ReceiverHistory() {
 	seen := map[byte]bool{} // specification of the duplicate filter (no eviction within this bound)
 	n := verif_Choose("operations", 1, 3+verif_Tier())
 	for i := 0; i < n; i++ {
-		c := byte(verif_Choose("cid", 1, 2))
+		c := byte(verif_Choose("cid", 1, 3)) // (3: the multihash of 1 under another codec — a different CID)
 		if verif_Bool("uncache") {
-			r.UncacheCid(c09cid(c))
+			r.UncacheCid(c09hcid(c))
 			delete(seen, c)
 			continue
 		}
@@ -134,7 +145,7 @@ func VerifC09_ReceiverHistory() {
 		if verif_Bool("fromPeerB") {
 			p, allowed = "B", allowB
 		}
-		derr := r.Direct(context.Background(), c09cid(c), peer.AddrInfo{ID: p})
+		derr := r.Direct(context.Background(), c09hcid(c), peer.AddrInfo{ID: p})
 		verif_Reach("announced")
 		verif_Assert(derr == nil, "a direct announcement on an open receiver returns nil")
 		expectDelivery := allowed && !seen[c]
@@ -145,7 +156,7 @@ func VerifC09_ReceiverHistory() {
 		case a := <-r.outChan:
 			verif_Reach("delivered")
 			verif_Assert(expectDelivery, "an announcement is delivered only if its peer is allowed and its CID was not recently seen")
-			verif_Assert(a.Cid == c09cid(c) && a.PeerID == p, "a delivered announcement carries the announced CID and publisher unchanged")
+			verif_Assert(a.Cid == c09hcid(c) && a.PeerID == p, "a delivered announcement carries the announced CID and publisher unchanged")
 		default:
 			verif_Assert(!expectDelivery, "an allowed announcement of an unseen (or un-cached) CID is delivered")
 		}
